@@ -56,12 +56,24 @@ def cache_stress_stage(ctx, rounds=400):
         ctx.notes.append("cache-stress: no -race build in this environment (%s); stage skipped" % (r.stderr.strip().splitlines() or ["?"])[-1][:120])
         return
     total = 0
+    stuck = False
     for store in ("mem", "min"):
         for faults in (False, True):
+            if stuck:
+                continue   # one stuck run is a verdict; the other variants would only wait out their limits
             cmd = [out, "cache-stress", "--seed", str(ctx.seed), "--rounds", str(rounds), "--store", store] + (["--faults"] if faults else [])
             ctx.cov["checker_cmd"].append("vh(-race) " + " ".join(cmd[1:]))
-            p = subprocess.run(cmd, env=dict(ENV, GORACE="halt_on_error=0"), capture_output=True, text=True, timeout=600)
             ad = "stress=%s%s" % (store, "+faults" if faults else "")
+            limit = 120 if rounds <= 150 else 600   # (a run takes a few seconds)
+            try:
+                p = subprocess.run(cmd, env=dict(ENV, GORACE="halt_on_error=0"), capture_output=True, text=True, timeout=limit)
+            except subprocess.TimeoutExpired:
+                # free-running openers that never return: the real code is stuck (a lost wake-up or a lock nobody releases)
+                ctx.divs.append({"prop": ctx.prop, "sig": "%s open free-running hang" % ad, "count": 1, "stage": "cache-stress", "module": "cachestress", "adapter": ad,
+                                 "vh_args": cmd[2:], "init": "", "example": {"history": [], "call": " ".join(cmd[1:]), "expected": "every Open returns",
+                                                                             "detail": "the stress run did not finish within %d s (it takes seconds): openers are stuck" % limit}})
+                stuck = True
+                continue
             def div(sig, detail):
                 ctx.divs.append({"prop": ctx.prop, "sig": "%s open free-running %s" % (ad, sig), "count": 1, "stage": "cache-stress", "module": "cachestress", "adapter": ad,
                                  "vh_args": cmd[2:], "init": "", "example": {"history": [], "call": " ".join(cmd[1:]), "expected": "every successful Open serves the complete bytes", "detail": detail}})
